@@ -50,6 +50,9 @@ pub fn struct_kinds(traits: u32) -> Vec<&'static str> {
     if traits & (T_DELIM | T_HTTP) != 0 {
         v.extend_from_slice(&DELIM_KINDS);
     }
+    if traits & T_HTTP != 0 {
+        v.push("multipart_part");
+    }
     if traits & T_MXC != 0 {
         v.push("mxc_long_host");
     }
@@ -184,6 +187,56 @@ pub fn apply(kind: &str, traits: u32, data: &mut Vec<u8>, other: &[u8], t: &mut 
             let len = 250 + t.below(11) as usize;
             let host: String = (0..len).map(|i| alnum[i % alnum.len()]).collect();
             *data = format!("mxc://{host}/{media}").into_bytes();
+            true
+        }
+        "multipart_part" => {
+            // damage the part structure of a multipart body: empty a part, double a boundary line,
+            // drop the line break after a boundary, or drop the closing boundary
+            let Some(bpos) = data.windows(9).position(|w| w.eq_ignore_ascii_case(b"boundary=")) else { return false };
+            let rest = &data[bpos + 9..];
+            let end = rest.iter().position(|&c| c == b'\n' || c == b';').unwrap_or(rest.len());
+            let mut bnd: Vec<u8> = rest[..end].to_vec();
+            bnd.retain(|&c| c != b'"' && c != b'\r');
+            if bnd.is_empty() {
+                return false;
+            }
+            let mut marker = b"--".to_vec();
+            marker.extend_from_slice(&bnd);
+            let body_start = data.windows(2).position(|w| w == b"\n\n").map(|p| p + 2).unwrap_or(0);
+            let occ: Vec<usize> = (body_start..data.len().saturating_sub(marker.len()) + 1).filter(|&i| data[i..].starts_with(&marker)).collect();
+            if occ.is_empty() {
+                return false;
+            }
+            match t.below(4) {
+                0 if occ.len() >= 2 => {
+                    // empty the part between two consecutive boundaries (keep one line break)
+                    let k = t.index(occ.len() - 1);
+                    let from = occ[k] + marker.len();
+                    let to = occ[k + 1];
+                    if from < to {
+                        let keep: &[u8] = if t.chance(1, 2) { b"\r\n" } else { b"" };
+                        data.splice(from..to, keep.iter().copied());
+                    }
+                }
+                1 => {
+                    let k = occ[t.index(occ.len())];
+                    let mut line = marker.clone();
+                    line.extend_from_slice(b"\r\n");
+                    data.splice(k..k, line);
+                }
+                2 => {
+                    let k = occ[t.index(occ.len())] + marker.len();
+                    let mut e = k;
+                    while e < data.len() && (data[e] == b'\r' || data[e] == b'\n') {
+                        e += 1;
+                    }
+                    data.drain(k..e);
+                }
+                _ => {
+                    let k = *occ.last().unwrap();
+                    data.truncate(k);
+                }
+            }
             true
         }
         "html_attr_value" => {
